@@ -57,7 +57,7 @@ CHECKS = {
                 note="'Random beyond the bound' of the quantifier text is deliberately not done (sampling is a different family); the completed bound is reported.",
                 technique="exhaustive fault-sequence enumeration up to a bound on the real decoder"),
     "C17": dict(level="model_checking", design="4/C17",
-                text="98-symbol state-relative frame alphabet over 4 endpoints (incl. zero-length last segments with a plausible-looking trail, header-plus-zero-bytes frames, truncated TECMP-like buffers, continuation segments that fit a default-constructed reassembly entry, an intermediary segment repeated verbatim, well-formed status messages whose content changes: uptime high / low): unmerged tree of copied real Decoders (depth 3 quick / 4 thorough; depth 5 / 6 over a sharp 24-symbol sub-alphabet) and BFS (depth 9 / 11) merged on (model state, dump of the decoder's pending table); after every transition the set of endpoints with pending data must equal the set of open messages and buffered bytes must not exceed header + declared segment bytes received; plus the fan-out and long-gap rounds of C05 and messages whose segments add up to more than 65535 bytes (15 size lists x 4 endpoints: the last segment releases the buffer all the same).",
+                text="103-symbol state-relative frame alphabet over 4 endpoints (incl. zero-length last segments with a plausible-looking trail, header-plus-zero-bytes frames, truncated TECMP-like buffers, continuation segments that fit a default-constructed reassembly entry, an intermediary segment repeated verbatim, a rejected typed payload followed by a first segment in one frame, TECMP frames whose device id equals an endpoint's, well-formed status messages whose content changes: uptime high / low): unmerged tree of copied real Decoders (depth 3 quick / 4 thorough; depth 5 / 6 over a sharp 24-symbol sub-alphabet) and BFS (depth 8 / 10) merged on (model state, dump of the decoder's pending table); after every transition the set of endpoints with pending data must equal the set of open messages and buffered bytes must not exceed header + declared segment bytes received; plus the fan-out and long-gap rounds of C05 and messages whose segments add up to more than 65535 bytes (15 size lists x 4 endpoints: the last segment releases the buffer all the same).",
                 note="Uses the guarded read-only hook Decoder::verifPending(); a header-only frame is modelled as carrying nothing.",
                 technique="explicit-state model checking (tree + BFS with state merging) of the real decoder against a reference model; invariant checked in every state"),
     "C18": dict(level="model_checking", design="4/C18",
